@@ -200,7 +200,7 @@ pub fn gen_c07(args: &Args) {
 // C08
 
 /// a date/site on which twilight is likely to be missing for the method (high latitude summer)
-fn twilight_edge_case(r: &mut Rng, max_lat: i64) -> (Site, NaiveDate) {
+pub fn twilight_edge_case(r: &mut Rng, max_lat: i64) -> (Site, NaiveDate) {
     let mut site = rand_site(r, max_lat, 1);
     let north = r.chance(1, 2);
     let lat = r.range(460_000, max_lat);
@@ -428,6 +428,17 @@ pub fn gen_c11(args: &Args) {
         while k < 86400 {
             let mut p = P::of_method(*r_pick(&mut r, &[1usize, 5, 6, 7]));
             p.pol = if r.chance(1, 8) { 6 } else { 0 };
+            // the rounding rule holds for every parameter set: vary the interval definitions too
+            // (whole and fractional minutes), so Imsaak / Fajr / Isha are reached through each branch
+            if r.chance(1, 3) {
+                p.imi = *r_pick(&mut r, &[450i64, 90, 600, 37, 1234]);
+            }
+            if r.chance(1, 6) {
+                p.fi = *r_pick(&mut r, &[4800i64, 4530, 75]);
+            }
+            if r.chance(1, 6) {
+                p.ii = *r_pick(&mut r, &[5400i64, 5430, 45]);
+            }
             // k/60 minutes on every key (+- 1500 min on some to force negative and >= 24 h hours)
             for j in 0..7 {
                 p.off[j] = k + match r.range(0, 5) {
